@@ -33,7 +33,11 @@ def impl_checks(ctx, cases):
             sh = rescorr.run_impl(c2)
             ev += 1
             # shifting rounds each time to ulp(shift): the increments change by <= eps*|shift| each
-            tol = 1e-9 + 40 * eps * abs(shift) / dtmin
+            spread = 1.0
+            if c["kind"] == "single":
+                a_ = 1 / (np.asarray(c["table"]["compressibility"]) * np.asarray(c["table"]["viscosity"]))
+                spread = float(a_.max() / a_.min())  # conditioning of the step matrix: solver error ~ spread * rtol
+            tol = (1e-9 + 40 * eps * abs(shift) / dtmin) * max(1.0, spread)
             if "field" not in sh:
                 bad("shifted time grid makes the simulation fail", c2, dict(shift=shift, error=sh.get("error")))
                 continue
